@@ -33,6 +33,8 @@ pub struct Cont {
 pub type VarElem = List<u8, typenum::U8>;
 /// an element that is itself a multi-leaf milhouse list: hashing it forks with rayon
 pub type NestElem = List<u64, typenum::U1024>;
+/// an element that is itself a fixed-size vector (the `Vector` trait impls used as an element)
+pub type NestVElem = Vector<u64, typenum::U8>;
 /// an element that is a list of variable-size items (nested offset tables)
 pub type Nest2Elem = List<VarElem, typenum::U4>;
 
@@ -1059,6 +1061,7 @@ fn make_runner(kind: &str, n: &str, m: &str) -> Option<Box<dyn Runner>> {
         "u256" => small_sizes!(U256, n, m),
         "h256" => small_sizes!(Hash256, n, m),
         "cont" => small_sizes!(Cont, n, m),
+        "nestv" => small_sizes!(NestVElem, n, m),
         "var" => small_sizes!(VarElem, n, m),
         "nest" => sizes!(NestElem, n, m, ["4" => U4, "8" => U8, "9" => U9, "33" => U33, "1024" => U1024]),
         "nest2" => sizes!(Nest2Elem, n, m, ["3" => U3, "4" => U4, "5" => U5, "8" => U8, "9" => U9, "17" => U17]),
